@@ -46,7 +46,7 @@ UNIT = Unit(
                         && final(self).transactions == old(self).transactions && final(self).fee_multiplier == old(self).fee_multiplier
                         && final(self).dosc_speed == old(self).dosc_speed && final(self).pools == old(self).pools && final(self).stakes == old(self).stakes""", "C05", "C17"),
                     C("wf", "final(self).coins.wf()", "C20")],
-           injects=[Inject("entry", "proof { let x = self.fee_pool.0; assert((x >> 16) <= x) by (bit_vector); }"),
+           injects=[Inject("entry", "proof { let x = self.fee_pool.0; assert((x >> 16) <= x) by (bit_vector); assert((x >> 16) == x / 65536) by (bit_vector); }"),
                     Inject(("after_let", "pseudocoin_data"), "let ghost pd = pseudocoin_data; proof { assert(is_reward_cdh(*old(self), action, pd)); assert(self.coins == old(self).coins && spec_tip906(*self) == spec_tip906(*old(self))); }"),
                     Inject("end", "proof { assert(self.coins@ == view_insert(old(self).coins@, spec_proposer_reward(old(self).height), pd, spec_tip906(*old(self)))); }"),
                     Inject("end", "proof { let d = self.coins@.coins[spec_proposer_reward(old(self).height)]; lemma_origin_reward(old(self).coins@.coins, old(self).height, d); assert(self.coins@.coins =~= old(self).coins@.coins.insert(spec_proposer_reward(old(self).height), d)); }")]),
